@@ -231,6 +231,11 @@ func (w *world) execRender(op M) bool {
 			op["dec"] = decorObs(decoration.Named(name))
 			w.lastRes = M{"err": b2i(err != nil)}
 		}
+	case "regdecor":
+		// registers a custom decoration under a name in the process-global registry
+		d := customDecoration(opMap(op, "custom"))
+		decoration.RegisterDecorationName(opStr(op, "name"), d)
+		op["dec"] = decorObs(d)
 	case "htmlopts":
 		wr := w.wrapperOf(opInt(op, "w"))
 		ht, ok := wr.rt.(*html.HTMLTable)
@@ -358,7 +363,21 @@ func (w *world) doRender(op M) M {
 	}
 	entry := opStrDef(op, "entry", "Render")
 	status, text := callRender(tg, entry)
-	renderCalls++
+	if w.recordRaw || w.soloOutputs != nil {
+		val := status + "\x00" + text
+		if status != "ok" {
+			val = status
+		}
+		if w.recordRaw {
+			w.rawOutputs = append(w.rawOutputs, val)
+		} else {
+			ok := w.nrender < len(w.soloOutputs) && w.soloOutputs[w.nrender] == val
+			w.soloEqual = append(w.soloEqual, ok)
+		}
+		w.nrender++
+	} else {
+		renderCalls++
+	}
 	res := M{"fmt": tg.kind, "status": status, "empty": b2i(text == ""), "entry": entry}
 	if status == "panic" {
 		res["panic"] = text
@@ -372,6 +391,9 @@ func (w *world) doRender(op M) M {
 		if d := decorOfWrapper(tg.wr.rt); d != nil {
 			res["dec"] = d
 		}
+	}
+	if w.soloOutputs != nil {
+		res["solo"] = b2i(w.soloEqual[len(w.soloEqual)-1])
 	}
 	if w.facets["same"] {
 		res["same"] = w.sameAsReference(op, tg, status, text)
@@ -427,7 +449,6 @@ func sortedKeys(m M) []string {
 	sort.Strings(ks)
 	return ks
 }
-
 
 // ---- C10: the same content built on a core table and rendered by the format's own wrapper ----
 
